@@ -581,13 +581,14 @@ func sectionRace(rng *vh.Rng) {
 		ctx := context.Background()
 		var mu sync.Mutex
 		var allTs []int64 // timestamps by sequence number, appended before the write call
-		confirmed := 0    // number of events whose Write call returned
 		cur := int64(1000)
 		stop := make(chan struct{})
 		var wg sync.WaitGroup
+		var batchStarts []int
 		writeBatch := func(n int, r *vh.Rng) {
 			mu.Lock()
 			base := len(allTs)
+			batchStarts = append(batchStarts, base)
 			evs := make([]model.LogEvent, n)
 			for i := range evs {
 				if r.Chance(1, 3) {
@@ -601,10 +602,6 @@ func sectionRace(rng *vh.Rng) {
 				res.Note("race: write: %v", err)
 				return
 			}
-			time.Sleep(time.Duration(srv.Cfg.JrnlCtrlConfig.WriteFlushMs*2+2) * time.Millisecond)
-			mu.Lock()
-			confirmed = base + n
-			mu.Unlock()
 		}
 		wr := rng.Fork(fmt.Sprint("w", round))
 		writeBatch(600, wr)
@@ -614,8 +611,9 @@ func sectionRace(rng *vh.Rng) {
 		wg.Add(1)
 		go func() {
 			defer wg.Done()
-			for i := 0; i < 40; i++ {
+			for i := 0; i < 150; i++ {
 				writeBatch(wr.PickI([]int{1, 30, 249, 250, 251, 500}), wr)
+				time.Sleep(2 * time.Millisecond)
 			}
 			close(stop)
 		}()
@@ -648,10 +646,24 @@ func sectionRace(rng *vh.Rng) {
 						return
 					default:
 					}
+					// readable before the query starts = confirmed in the journal's chunks now (one sequential writer: the first conf events)
+					conf := 0
+					if jrnl != nil {
+						cks, _ := jrnl.Chunks().Chunks(ctx)
+						for _, c := range cks {
+							conf += int(c.Count())
+						}
+					}
 					mu.Lock()
-					conf := confirmed
+					if conf > len(allTs) {
+						conf = len(allTs)
+					}
 					snapshot := append([]int64{}, allTs[:conf]...)
 					hiTs := cur
+					recent := 0 // first event of the second-to-last Write call begun so far: its hull/index update may still be pending
+					if len(batchStarts) >= 2 {
+						recent = batchStarts[len(batchStarts)-2]
+					}
 					mu.Unlock()
 					a := hiTs - int64(r.Intn(60))
 					var lo, hi *int64
@@ -687,11 +699,15 @@ func sectionRace(rng *vh.Rng) {
 					}
 					missing := 0
 					want := 0
+					onlyRecent := true
 					for s, t := range snapshot {
 						if inB(t, lo, hi) {
 							want++
 							if !have[s] {
 								missing++
+								if s < recent {
+									onlyRecent = false
+								}
 							}
 						}
 					}
@@ -703,7 +719,11 @@ func sectionRace(rng *vh.Rng) {
 					if bad != "" {
 						res.SpecFail(vh.SpecFailure{Section: "race", Kind: "extra-event", Input: in, Impl: short(runsOf(got)), Spec: "subset of the range, stored order", What: bad})
 					} else if missing > 0 {
-						res.SpecFail(vh.SpecFailure{Section: "race", Kind: "hidden-event", Input: in, Impl: short(runsOf(got)), Spec: fmt.Sprintf("%d events confirmed before the query are in range", want),
+						finding := ""
+						if onlyRecent {
+							finding = "F46" // every hidden event belongs to the last two Write calls: readable, hull/index update pending
+						}
+						res.SpecFail(vh.SpecFailure{Section: "race", Kind: "hidden-event", Input: in, Impl: short(runsOf(got)), Spec: fmt.Sprintf("%d events confirmed before the query are in range", want), Finding: finding, ImplEqModel: onlyRecent,
 							What: fmt.Sprintf("RANGE [%s:%s] next to a writer and forced rebuilds hides %d of %d events that were readable before the query started (monotone data)", optS(lo), optS(hi), missing, want)})
 					}
 				}
